@@ -369,8 +369,11 @@ def build(uf):
         return uf("skew", [a])
 
     class gaussian_kde:
+        seen = []          # what the estimator was constructed from
+
         def __init__(self, dataset):
             self.dataset = [list(_elems(d)) for d in dataset]
+            gaussian_kde.seen.append(self.dataset)
 
         def evaluate(self, points):
             pts = [list(_elems(p)) for p in points]
@@ -596,6 +599,24 @@ def run_scatter(eng, p):
                                    kde_kwargs=dict(kw), xscale=p["xscale"],
                                    yscale=p["yscale"])
         outs.append(d)
+    seen = km["gaussian_kde"].seen
+    if p["kde"] == "gauss" and p["xscale"] == p["yscale"] == "linear" \
+            and seen:
+        # the reference estimator is built from exactly the valid selected
+        # events (as a multiset: the estimate is permutation invariant)
+        exp = [(lift(x).v, lift(y).v) for x, y, s_ in zip(A.xs, A.ys, sel)
+               if s_ and not eng.branch(z3.Or(lift(x).nan, lift(y).nan))]
+        got = [(lift(a).v, lift(b).v) for a, b in zip(*seen[0])]
+
+        def count(lst, e):
+            return z3.Sum([z3.If(z3.And(g[0] == e[0], g[1] == e[1]), 1, 0)
+                           for g in lst])
+        eng.prove(conj([len(got) == len(exp)] + [
+            count(got, e) == count(exp, e) for e in exp]),
+            "kde scatter: the Gaussian estimator is built from exactly the "
+            "selected valid events",
+            info={"events given to the estimator": len(got),
+                  "selected valid events": len(exp)})
     if pos is None:
         # same number of results, but C has only the selected events:
         # compare A/B elementwise and A vs C on the selected events
@@ -980,11 +1001,75 @@ def _run(fn):
         return None, "%s: %s" % (type(e).__name__, e)
 
 
+def _replay_gauss_reference(p, vals):
+    """Gaussian KDE of the real entry point vs. scipy's estimator built
+    directly from the selected valid events. Model events with equal values
+    become identical clusters (exact ties are kept)."""
+    import dclab
+    from scipy.stats import gaussian_kde
+    N = p["N"]
+    rs = np.random.RandomState(7)
+    ux, uy = rs.randn(K), rs.randn(K)
+    cols = {}
+    for nm, lo, hi, u in (("x", 40., 200., ux), ("y", 0.01, 0.2, uy)):
+        mv = [None if vals.get("%s%d.nan" % (nm, i), False)
+              else float(vals.get("%s%d.v" % (nm, i)) or 0) for i in range(N)]
+        dist = sorted(set(m for m in mv if m is not None))
+        col = []
+        for m in mv:
+            for k in range(K):
+                if m is None:
+                    col.append(np.nan)
+                else:
+                    base = lo + (hi - lo) * (dist.index(m) + 1) / (
+                        len(dist) + 1)
+                    col.append(base * (1 + 0.05 * u[k]))
+        cols[nm] = np.array(col)
+    sel = [bool(vals.get("sel%d" % i, False)) for i in range(N)]
+    if vals.get("enable", True) is False:
+        sel = [True] * N
+    selk = np.repeat(sel, K)
+    x, y = cols["x"], cols["y"]
+    ds = dclab.new_dataset({"area_um": x, "deform": y})
+    ds.config["filtering"]["enable filters"] = True
+    ds.filter.manual[:] = selk
+    ds.apply_filter()
+    pos = None
+    if p["positions"]:
+        pos = (np.array([60., 150.]), np.array([0.05, 0.15]))
+    got = ds.get_kde_scatter(positions=pos, kde_type="gauss")
+    xs, ys = x[selk], y[selk]
+    ok = ~(np.isnan(xs) | np.isnan(ys))
+    px, py = (xs, ys) if pos is None else pos
+    exp = np.full(len(px), np.nan)
+    pok = ~(np.isnan(px) | np.isnan(py))
+    if ok.sum():
+        try:
+            exp[pok] = gaussian_kde([xs[ok], ys[ok]]).evaluate(
+                [px[pok], py[pok]])
+        except np.linalg.LinAlgError:
+            pass
+    if got.shape == exp.shape and np.allclose(got, exp, equal_nan=True,
+                                              rtol=1e-9, atol=0):
+        return {"reproduced": False, "key": None,
+                "detail": "real Gaussian KDE equals the reference estimator"}
+    return {"reproduced": True, "key": "scatter|gauss|not-the-reference-"
+            "estimator-on-the-selected-events",
+            "detail": "get_kde_scatter(kde_type='gauss') on %d selected "
+            "valid events (%d distinct) gives %r..., scipy's gaussian_kde "
+            "built from exactly these events gives %r..." % (
+                int(ok.sum()), len(set(zip(xs[ok], ys[ok]))),
+                np.ravel(got)[:3].tolist(), exp[:3].tolist())}
+
+
 def replay(case, params, v):
     vals = v.get("values") or {}
     p = params
     kind = p["kind"]
     what = str(v.get("what", ""))
+    if kind == "scatter" and "estimator is built from" in what:
+        with quiet():
+            return _replay_gauss_reference(p, vals)
     with quiet():
         if kind in ("stats", "scatter", "contour"):
             for attempt in range(6):
